@@ -73,8 +73,8 @@ PROPS["C13"] = _p([r"^c13_"], ["C13:"],
     outside="arbitrary nesting, wide objects, long strings, serde_json's arbitrary_precision feature; containers with more than one element "
             "(the library drops iterators over recursive values internally: not finished in 20 min in the probes)",
     assumptions=COMMON_ASSUME + ["stub: alloc::fmt::format returns an empty String", "values of recursive type are forgotten, not dropped, by the harness"])
-PROPS["C15"] = _p([r"^c15_"], ["C15:"], bounds=STD_BOUNDS + " Two keep-going runs per harness: the payload and the same payload with the members of the root object "
-    "permuted by a symbolic permutation (all 2 / all 6). Targets: S1, S2, S3, S4, E1, E2 of the catalogue and BTreeMap<KeyT,u8> (insert log compared as a multiset).")
+PROPS["C15"] = _p([r"^c15_"], ["C15:"], all_tags_for=r"^c15_.*_model$", bounds=STD_BOUNDS + " Two keep-going runs per harness: the payload and the same payload with the members of the root object "
+    "permuted by a symbolic permutation (all 2 / all 6). Targets: S1, S2, S3, S4, S6 of the catalogue and BTreeMap<KeyT,u8> (insert log compared as a multiset); tagged enums E0/E1/E2: the concrete reversal (tag first vs. tag last) as a two-run harness, and `*_taglast_model` harnesses comparing the tag-last run with the order-independent reference model (a symbolic tag position does not finish in 25 min).")
 PROPS["C18"] = dict(select=[r"^c18_"], tags=["C18:"], cap_quick=1200, cap_thorough=7200,
     bounds="received string: a run of one letter ('a', or the 2-byte U+00E9) of symbolic length 0..30 characters; 0..3 candidates, each a run of the same letter of "
            "symbolic length 0..30; layer 2 (thorough): concrete candidate lists, symbolic received length 0..12, real formatting, output compared byte for byte",
